@@ -36,9 +36,7 @@ func (it *Interp) Reset() {
 }
 
 func (it *Interp) load(r *flow.Rule) string {
-	if it.loaded {
-		panic("second load in one case")
-	}
+	// a later load in the same case reloads the resource's rule (a fresh *flow.Rule object every time)
 	it.loaded = true
 	if _, err := flow.LoadRules([]*flow.Rule{r}); err != nil {
 		return "ok 0"
